@@ -72,11 +72,17 @@ def generate(rng, tier, shard, nshards):
         kw = {}
         if rng.random() < 0.6:
             if cls == 'TextPixelRegion':
-                kw = rng.choice([{'color': 'cyan'}, {'fontsize': 17}, {'rotation': 45.0}, {'alpha': 0.25}])
+                # property names and the aliases matplotlib accepts for them
+                kw = rng.choice([{'color': 'cyan'}, {'fontsize': 17}, {'rotation': 45.0}, {'alpha': 0.25}, {'ha': 'left'}, {'va': 'top'},
+                                 {'horizontalalignment': 'right'}, {'verticalalignment': 'bottom'}, {'size': 19}, {'weight': 'light'},
+                                 {'fontweight': 'light'}, {'style': 'italic'}, {'fontstyle': 'oblique'}, {'c': 'cyan'}, {'family': 'serif'},
+                                 {'fontfamily': 'monospace'}, {'ha': 'right', 'va': 'bottom', 'size': 8}])
             elif cls == 'PointPixelRegion':
-                kw = rng.choice([{'markersize': 13}, {'markeredgecolor': 'cyan'}, {'marker': 's'}, {'alpha': 0.25}])
+                kw = rng.choice([{'markersize': 13}, {'markeredgecolor': 'cyan'}, {'marker': 's'}, {'alpha': 0.25}, {'ms': 15}, {'mec': 'cyan'},
+                                 {'mew': 2.5}, {'markeredgewidth': 3.5}])
             else:
-                kw = rng.choice([{'edgecolor': 'cyan'}, {'linewidth': 7.5}, {'fill': True, 'facecolor': 'yellow'}, {'alpha': 0.25}, {'linestyle': '-.'}])
+                kw = rng.choice([{'edgecolor': 'cyan'}, {'linewidth': 7.5}, {'fill': True, 'facecolor': 'yellow'}, {'alpha': 0.25}, {'linestyle': '-.'},
+                                 {'ec': 'cyan'}, {'lw': 6.5}, {'ls': '-.'}, {'fill': True, 'fc': 'yellow'}])
         yield {'lane': cls, 'region': reg, 'origin': rng.choice([[0, 0], [0, 0], [rng.uniform(-50, 50), rng.uniform(-50, 50)], [10, -3], [0.5, 0.5], [-0.25, 7.75], [100, 64], [7, 3], [100, 64]]), 'kw': kw,
                'rs': rng.randrange(2 ** 31)}
 
@@ -211,8 +217,10 @@ def run_case(case, obs):
             abs(xy[0, 1] - (reg.center.y - oy)) <= 1e-9 * (1 + abs(reg.center.y) + abs(oy))
         obs.check(ok, 'point-artist-position', f'point artist at {xy.tolist()}, region centre minus origin = ({reg.center.x - ox}, {reg.center.y - oy})', 'point-position')
         for k, v in kw.items():
-            got = {'markersize': art.get_markersize(), 'markeredgecolor': art.get_markeredgecolor(), 'marker': art.get_marker(), 'alpha': art.get_alpha()}[k]
-            obs.check(colour_eq(got, v) if k == 'markeredgecolor' else got == v, 'caller-kwargs-do-not-override', f'{cls}: {k}={v!r} not applied (got {got!r})', 'kwargs-override')
+            got = {'markersize': art.get_markersize(), 'ms': art.get_markersize(), 'markeredgecolor': art.get_markeredgecolor(), 'mec': art.get_markeredgecolor(),
+                   'marker': art.get_marker(), 'alpha': art.get_alpha(), 'mew': art.get_markeredgewidth(), 'markeredgewidth': art.get_markeredgewidth()}[k]
+            obs.check(colour_eq(got, v) if k in ('markeredgecolor', 'mec') else got == v, 'caller-kwargs-do-not-override', f'{cls}: {k}={v!r} not applied (got {got!r})', 'kwargs-override')
+        kw = {{'ms': 'markersize', 'mec': 'markeredgecolor', 'mew': 'markeredgewidth'}.get(k, k): v for k, v in kw.items()}
         if 'symbol' in reg.visual and 'marker' not in kw:
             obs.check(art.get_marker() == reg.visual['symbol'], 'visual-not-applied', f'visual symbol {reg.visual["symbol"]!r} not applied as marker (got {art.get_marker()!r})', 'visual-applied')
         if 'symsize' in reg.visual and 'markersize' not in kw:
@@ -229,8 +237,13 @@ def run_case(case, obs):
         obs.check(ok, 'text-artist-position', f'text artist at ({x},{y}), region centre minus origin = ({reg.center.x - ox}, {reg.center.y - oy})', 'text')
         obs.check(art.get_text() == reg.text, 'text-artist-string', f'text artist shows {art.get_text()!r}, region text {reg.text!r}', 'text')
         for k, v in kw.items():
-            got = {'color': art.get_color(), 'fontsize': art.get_fontsize(), 'rotation': art.get_rotation(), 'alpha': art.get_alpha()}[k]
-            obs.check(colour_eq(got, v) if k == 'color' else got == v, 'caller-kwargs-do-not-override', f'{cls}: {k}={v!r} not applied (got {got!r})', 'kwargs-override')
+            got = {'color': art.get_color(), 'c': art.get_color(), 'fontsize': art.get_fontsize(), 'size': art.get_fontsize(), 'rotation': art.get_rotation(),
+                   'alpha': art.get_alpha(), 'ha': art.get_horizontalalignment(), 'horizontalalignment': art.get_horizontalalignment(),
+                   'va': art.get_verticalalignment(), 'verticalalignment': art.get_verticalalignment(), 'weight': art.get_fontweight(),
+                   'fontweight': art.get_fontweight(), 'style': art.get_fontstyle(), 'fontstyle': art.get_fontstyle(),
+                   'family': art.get_fontfamily()[0], 'fontfamily': art.get_fontfamily()[0]}[k]
+            obs.check(colour_eq(got, v) if k in ('color', 'c') else got == v, 'caller-kwargs-do-not-override', f'{cls}: {k}={v!r} not applied (got {got!r})', 'kwargs-override')
+        kw = {{'size': 'fontsize', 'c': 'color'}.get(k, k): v for k, v in kw.items()}
         if 'rotation' in reg.visual and 'rotation' not in kw:
             obs.check(abs(art.get_rotation() - reg.visual['rotation'] % 360) < 1e-9, 'visual-not-applied', 'visual rotation not applied', 'visual-applied')
         if 'fontsize' in reg.visual and 'fontsize' not in kw:
@@ -281,6 +294,7 @@ def winding_number(vx, vy, px, py):
 
 def judge_patch_kwargs(obs, art, reg, kw, cls):
     vis = dict(reg.visual)
+    kw = {{'ec': 'edgecolor', 'lw': 'linewidth', 'ls': 'linestyle', 'fc': 'facecolor'}.get(k, k): v for k, v in kw.items()}      # aliases -> property names
     for k, v in kw.items():
         if k == 'edgecolor':
             obs.check(colour_eq(art.get_edgecolor(), v), 'caller-kwargs-do-not-override', f'{cls}: edgecolor kwarg {v!r} not applied (got {art.get_edgecolor()})', 'kwargs-override')
